@@ -1,5 +1,7 @@
 """(development helper) build the C01 entries of known_findings.json from literal witnesses,
-checking each against the real code and the model."""
+checking each against the real code and the model: a known finding must still deviate from the
+rules (code = model != rules, under its label), a fixed one must follow them (code = model =
+rules)."""
 import json, sys, os
 sys.path.insert(0, os.path.dirname(os.path.abspath(__file__)))
 import wire
@@ -12,25 +14,40 @@ W = [
   {'a': {'x': 1, 'y': 2}}, {'a': {'y': 2, 'x': 1}}, 'F'),
  ('arrayoperand', "explicit $eq/$in with an array operand does not try the elements: {a: {$in: [[1,2]]}} misses {a: [1,2]}",
   {'a': {'$in': [[1, 2]]}}, {'a': [1, 2]}, 'T'),
- ('deadend', "a path that dead-ends in a scalar yields no candidate: {'a.b': null} misses {a: 5}",
-  {'a.b': None}, {'a': 5}, 'T'),
+ ('notnocand', "$not does not hold on a path that reaches nothing (an index past the end of an array, a field name over an array of scalars): {'a.b': {$not: {$size: 2}}} misses {a: []}",
+  {'a.b': {'$not': {'$size': 2}}}, {'a': []}, 'T'),
  ('multicand', "$exists:false over an array of sub-documents holds when ANY element lacks the field",
   {'b.b': {'$exists': False}}, {'b': [{'b': 1}, {}]}, 'F'),
- ('multiop', "a multi-operator condition must be met by ONE candidate: {a: {$gt:1, $lt:5}} misses {a: [0, 10]}... and $ne mixed with positives on no candidate",
-  {'c.d': {'$lte': None, '$exists': 0}}, {}, 'T'),
- ('emptydocoperand', "equality with an empty sub-document selects documents lacking the field: {a: {}} selects {}",
-  {'a': {}}, {}, 'F'),
- ('nullorder', "{$lte: null} / {$gte: null} do not select a missing field",
-  {'c': {'$lte': None}}, {'a': 2}, 'T'),
- ('ext:$all', "$all: [] selects everything",
-  {'a': {'$all': []}}, {'a': -1}, 'F'),
- ('ext:$size', "$size: 1 selects truthy scalars and one-field sub-documents",
-  {'a': {'$size': 1}}, {'a': 'ba'}, 'F'),
- ('ext:$elemMatch', "$elemMatch inherits the $all/$size deviations for its element conditions",
-  {'c': {'$elemMatch': {'$size': 1}}}, {'c': ['b', 2]}, 'F'),
+ ('multiop', "a multi-operator condition must be met by ONE candidate: {'a.b': {$gt: 1, $lt: 5}} misses {a: [{b: 0}, {b: 10}]}... and $ne mixed with positives on no candidate",
+  {'a.b': {'$gt': 1, '$lt': 5}}, {'a': [{'b': 0}, {'b': 10}]}, 'T'),
+ ('allelem', "an $elemMatch item of $all is applied to the list of candidates as if it were the array: {b: {$all: [{$elemMatch: {$eq: 2}}]}} selects {b: 2}",
+  {'b': {'$all': [{'$elemMatch': {'$eq': 2}}]}}, {'b': 2}, 'F'),
+ ('allmulticand', "$all over several candidates does not search the array-valued ones (TypeError when the first one is an array and another is not iterable): {'a.b': {$all: [2]}} misses {a: [{b: 1}, {b: [2, 3]}]}",
+  {'a.b': {'$all': [2]}}, {'a': [{'b': 1}, {'b': [2, 3]}]}, 'T'),
  ('lazyvalidation', "a malformed part of a filter is only rejected if evaluation reaches it: {c: 1, $or: []} is accepted when c differs",
   {'c': 1, '$or': []}, {'c': 2}, 'E'),
 ]
+
+# (id, what, filter, doc, what the rules say, commit in the library, python before the repair)
+FIXED = [
+ ('emptydocoperand', "equality with an empty sub-document selects documents lacking the field: {a: {}} selects {}",
+  {'a': {}}, {}, 'F', 'b16f2d5', 'T'),
+ ('nullorder', "{$lte: null} / {$gte: null} do not select a missing field",
+  {'c': {'$lte': None}}, {'a': 2}, 'T', '44e20a5', 'F'),
+ ('ext:$all', "$all: [] selects everything",
+  {'a': {'$all': []}}, {'a': -1}, 'F', '76e5b95', 'T'),
+ ('allnull', "a null item of $all is not met by a missing field: {a: {$all: [null]}} misses {}",
+  {'a': {'$all': [None]}}, {}, 'T', 'ca40cd6', 'F'),
+ ('ext:$size', "$size: 1 selects truthy scalars and one-field sub-documents",
+  {'a': {'$size': 1}}, {'a': 'ba'}, 'F', 'bc3b6eb', 'T'),
+ ('ext:$elemMatch', "$elemMatch inherits the $all/$size deviations for its element conditions",
+  {'c': {'$elemMatch': {'$size': 1}}}, {'c': ['b', 2]}, 'F', 'bc3b6eb', 'T'),
+ ('deadend', "a path that dead-ends in a scalar yields no candidate: {'a.b': null} misses {a: 5}",
+  {'a.b': None}, {'a': 5}, 'T', '3b117a4', 'F'),
+ ('toplevelnot', "a top-level $not is accepted and always true, so that an operator query of $elemMatch made of $not selects every element: {a: {$elemMatch: {$not: {$ne: 5}}}} selects {a: [1]}",
+  {'a': {'$elemMatch': {'$not': {'$ne': 5}}}}, {'a': [1]}, 'F', 'eaf75fc', 'T'),
+]
+n = lambda x: '?' if x.startswith('!?') else 'E' if x.startswith('!') else x
 out = []
 lines = []
 for label, what, f, d, spec in W:
@@ -42,15 +59,32 @@ for label, what, f, d, spec in W:
     lines.append('c01 %s %s' % (wf, wd))
     out.append({'property': 'C01', 'id': label, 'status': 'known', 'what': what,
                 'witness': {'filter': f, 'doc': d, 'wire_filter': wf, 'wire_doc': wd, 'spec': spec, 'python': py}})
+for label, what, f, d, spec, commit, before in FIXED:
+    o = wire.Oids()
+    wf, wd = wire.encs(f, o), wire.encs(d, o)
+    try: py = 'T' if filter_applies(f, d) else 'F'
+    except Exception as e: py = 'E'
+    assert py == spec, (label, py, spec)
+    lines.append('c01 %s %s' % (wf, wd))
+    out.append({'property': 'C01', 'id': label, 'status': 'fixed', 'commit': commit, 'what': what,
+                'fixed': 'fixed: property=C01 %s %s' % (commit, what),
+                'witness': {'filter': f, 'doc': d, 'wire_filter': wf, 'wire_doc': wd, 'spec': spec, 'python': before}})
 res = wire.run_driver(lines)
 for e, r in zip(out, res):
-    impl, spec, reasons = [x.strip() for x in r.split('|')]
-    n = lambda x: '?' if x.startswith('!?') else 'E' if x.startswith('!') else x
-    assert n(impl) == e['witness']['python'], (e['id'], impl)
+    impl, spec, reasons, deep = [x.strip() for x in r.split('|')]
+    labels = reasons.split() + deep.split()
     assert n(spec) == e['witness']['spec'], (e['id'], spec)
-    assert e['id'] in reasons.split() or e['id'] == 'lazyvalidation', (e['id'], reasons)
-    print(e['id'], 'ok', reasons)
+    if e['status'] == 'known':
+        assert n(impl) == e['witness']['python'], (e['id'], impl)
+        assert e['id'] in labels or e['id'] == 'lazyvalidation', (e['id'], labels)
+    else:
+        assert n(impl) == n(spec), (e['id'], impl, spec)
+    print(e['id'], e['status'], 'ok', labels)
 path = os.path.join(wire.VERIF, 'known_findings.json')
 data = json.load(open(path)) if os.path.exists(path) else {'findings': []}
-data['findings'] = [x for x in data['findings'] if x['property'] != 'C01'] + out
+# C01 entries keep their place (before the other properties' entries they preceded)
+first = min([i for i, x in enumerate(data['findings']) if x['property'] == 'C01'] or [0])
+rest = [x for x in data['findings'] if x['property'] != 'C01']
+nbefore = len([x for x in data['findings'][:first] if x['property'] != 'C01'])
+data['findings'] = rest[:nbefore] + out + rest[nbefore:]
 json.dump(data, open(path, 'w'), indent=1)
